@@ -14,6 +14,8 @@ import Mathlib.Tactic.SplitIfs
 
 namespace MatryoshkaTie
 
+set_option linter.unusedSimpArgs false
+
 open Matryoshka Extracted.Matryoshka
 
 /-- Leaves of the case analyses: equalities/inequalities of tuples of rationals under hypotheses on rationals. -/
@@ -52,10 +54,10 @@ theorem calcStep_eq (ex : Option Bounds) (s : St) (p : Proposal) (h : s.stopped 
   generalize hpl : plo.getD lo = pl
   generalize hph : phi.getD hi = ph
   generalize hc : Extracted.checkExclusionBoundsOverlap pl ph ex = c
-  rcases c with ⟨_ | _, _ | _⟩ <;> rcases pref with _ | pref <;> simp only []
+  rcases c with ⟨_ | _, _ | _⟩ <;> rcases pref with _ | pref <;> (try simp only [Prod.mk.injEq, Bool.true_eq_false, Bool.false_eq_true, and_self, and_false, and_true, false_and, if_true, if_false, ge_iff_le, gt_iff_lt])
   all_goals try
     (generalize hr : Extracted.clampToBounds pref lo hi ex = r
-     rcases r with ⟨_ | a, _ | b⟩ <;> simp only [])
+     rcases r with ⟨_ | a, _ | b⟩ <;> (try simp only [Prod.mk.injEq, Bool.true_eq_false, Bool.false_eq_true, and_self, and_false, and_true, false_and, if_true, if_false, ge_iff_le, gt_iff_lt]))
   all_goals tie_split
 
 /-- A stopped state is left alone by the model (`break` ended the Python loop). -/
@@ -83,7 +85,7 @@ theorem statusStep_eq (ex : Option Bounds) (prio : Int) (s : RSt) (p : Proposal)
   generalize hpl : plo.getD lo = pl
   generalize hph : phi.getD hi = ph
   generalize hc : Extracted.checkExclusionBoundsOverlap pl ph ex = c
-  rcases c with ⟨_ | _, _ | _⟩ <;> simp only [] <;> tie_split
+  rcases c with ⟨_ | _, _ | _⟩ <;> (try simp only [Prod.mk.injEq, Bool.true_eq_false, Bool.false_eq_true, and_self, and_false, and_true, false_and, if_true, if_false, ge_iff_le, gt_iff_lt]) <;> tie_split
 
 theorem statusStep_stopped (ex : Option Bounds) (prio : Int) (s : RSt) (p : Proposal) (h : s.stopped = true) :
     Matryoshka.statusStep ex prio s p = s := by
